@@ -6,6 +6,12 @@ package common
 //@ global-nonnil lastUpdatedCache cacheLock KeyFunc
 //@ global-invariant [C13] forall k string :: has(lastUpdatedCache, k) ==> lastUpdatedCache[k] != nil
 
+// key of the server-side-apply skip memo: one entry per child object (group, kind, the child's own namespace and name)
+//@ func lastUpdateCacheKey(client, obj) (key)
+//@   requires validClient(client) && obj != nil
+//@   safety C13,C01
+//@   ensures [C01] key == client.Group + "/" + client.Kind + "/" + obj.GetNamespace() + "/" + obj.GetName()
+
 //@ func deleteChildren(client, parent, observed, desired) (err)
 //@   requires validClient(client)
 //@   requires forall k string :: has(observed, k) ==> observed[k] != nil
